@@ -43,6 +43,7 @@ func sharedMutex(path string) *lockedfile.Mutex {
 	m, _ := sharedMutexes.LoadOrStore(path, lockedfile.MutexAt(path))
 	return m.(*lockedfile.Mutex)
 }
+
 var readEntries = []string{"open", "openfile-rdonly", "read"}
 
 func isWrite(e string) bool {
@@ -185,7 +186,7 @@ func checkModel(c modelCase) *vt.Fail {
 		os.WriteFile(p, []byte("initial\n"), 0o666)
 	}
 	os.MkdirAll(paths[3], 0o777) // a path that cannot be opened for writing: write entry points may refuse it
-	var holders []*holder
+	var holders, released []*holder
 	defer func() {
 		for _, h := range holders {
 			h.release()
@@ -293,6 +294,28 @@ func checkModel(c modelCase) *vt.Fail {
 				return vt.Failf("release-failed", "%s: %v", step, err)
 			}
 			holders = append(holders[:k:k], holders[k+1:]...)
+			if h.entry != "mutex" && h.entry != "mutex-shared" {
+				released = append(released, h)
+			}
+			if f := expect(step); f != nil {
+				return f
+			}
+		case "reclose":
+			// Close may be called again on a File that is already closed (it then reports an error): that call must
+			// not touch the locks of anybody else, even if its descriptor number has been reused in the meantime
+			if len(released) == 0 {
+				continue
+			}
+			h := released[((o.Holder%len(released))+len(released))%len(released)]
+			step := fmt.Sprintf("%d:close-again(p%d,%s)", i, h.path, h.entry)
+			trail = append(trail, step)
+			var cerr error
+			if f := vt.Guard("close-again-panic", func() *vt.Fail { cerr = h.release(); return nil }); f != nil {
+				return f
+			}
+			if cerr == nil {
+				return vt.Failf("release-failed", "%s: a second Close of the same File returned nil (documented: all calls after the first return a non-nil error). history: %s", step, strings.Join(trail, " "))
+			}
 			if f := expect(step); f != nil {
 				return f
 			}
@@ -321,8 +344,11 @@ func genModel(t *rapid.T) modelCase {
 	n := rapid.IntRange(1, 25).Draw(t, "nops")
 	for i := 0; i < n; i++ {
 		o := mop{Path: rapid.SampledFrom([]int{0, 1, 2, 0, 1, 2, 3}).Draw(t, "path")}
-		if rapid.IntRange(0, 2).Draw(t, "op") == 0 {
+		if k := rapid.IntRange(0, 8).Draw(t, "op"); k <= 2 {
 			o.Op = "release"
+			o.Holder = rapid.IntRange(0, 7).Draw(t, "holder")
+		} else if k == 5 {
+			o.Op = "reclose"
 			o.Holder = rapid.IntRange(0, 7).Draw(t, "holder")
 		} else {
 			o.Op = "acquire"
